@@ -6,7 +6,7 @@ MUTANTS = [
     {'name': 'returns the argument', 'file': 'partitura/utils/music.py', 'old': '            _transpose_note_inplace(note, interval)\n    return new_score', 'new': '            _transpose_note_inplace(note, interval)\n    return score', 'expect': 'RET'},
     {'name': 'STEPS table broken', 'file': 'partitura/utils/globals.py', 'old': '    "F": 3,\n    "G": 4,', 'new': '    "F": 4,\n    "G": 3,', 'expect': 'F3'}]
 
-NEUTRALS = [{'name': 'rename the copy', 'file': 'partitura/utils/music.py', 'old': '    new_score = copy.deepcopy(score)\n    # Reset recursion limit to previous value to avoid side effects\n    sys.setrecursionlimit(old_recursion_depth)\n    if isinstance(score, s.Score):\n        for part in new_score.parts:\n            for note in part.notes:\n                _transpose_note_inplace(note, interval)\n    elif isinstance(score, s.Part):\n        for note in new_score.notes:\n            _transpose_note_inplace(note, interval)\n    return new_score', 'new': '    result = copy.deepcopy(score)\n    # Reset recursion limit to previous value to avoid side effects\n    sys.setrecursionlimit(old_recursion_depth)\n    if isinstance(score, s.Score):\n        for part in result.parts:\n            for note in part.notes:\n                _transpose_note_inplace(note, interval)\n    elif isinstance(score, s.Part):\n        for note in result.notes:\n            _transpose_note_inplace(note, interval)\n    return result'}]
+NEUTRALS = [{'name': 'identity guard on quality and number separately', 'file': 'partitura/utils/music.py', 'old': '    if interval.quality + str(interval.number) == "P1":\n        pass\n', 'new': '    if interval.quality == "P" and interval.number == 1:\n        pass\n'}, {'name': 'rename the copy', 'file': 'partitura/utils/music.py', 'old': '    new_score = copy.deepcopy(score)\n    # Reset recursion limit to previous value to avoid side effects\n    sys.setrecursionlimit(old_recursion_depth)\n    if isinstance(score, s.Score):\n        for part in new_score.parts:\n            for note in part.notes:\n                _transpose_note_inplace(note, interval)\n    elif isinstance(score, s.Part):\n        for note in new_score.notes:\n            _transpose_note_inplace(note, interval)\n    return new_score', 'new': '    result = copy.deepcopy(score)\n    # Reset recursion limit to previous value to avoid side effects\n    sys.setrecursionlimit(old_recursion_depth)\n    if isinstance(score, s.Score):\n        for part in result.parts:\n            for note in part.notes:\n                _transpose_note_inplace(note, interval)\n    elif isinstance(score, s.Part):\n        for note in result.notes:\n            _transpose_note_inplace(note, interval)\n    return result'}]
 
 # changes made by sub-agents that were given only the property text (see /verif/seeded/<id>/): each must stay reported
 SEEDED = [
